@@ -12,9 +12,11 @@ import (
 	"encoding/json"
 	"flag"
 	"fmt"
+	"math"
 	"os"
 	"path/filepath"
 	"sort"
+	"strconv"
 	"strings"
 
 	"verif/c08/dbccase"
@@ -109,9 +111,40 @@ func (st *state) checkDoc(doc *dbc.File, hex bool, emit bool) []byte {
 		}
 	}
 	if emit {
-		st.emit("doc", hex, text, o)
+		st.emitExtra("doc", hex, text, o, genExtra(doc, o, text))
 	}
 	return text
+}
+
+// genExtra: the GENERATED document itself for the model side (not only the parser's image of its text):
+// GENPROJEQ 1 when its projection equals the projection of parse(write(doc)) section by section (then the
+// model's writer applied to the model's image must reproduce the text dbc.Write made of the generated
+// document); GENAST, the generated document as a Gallina term, for the vm_compute comparison
+// write(model of doc) = dbc.Write(doc) of the thorough tier; GENFMT, strconv's text of its floats.
+func genExtra(doc *dbc.File, o dbccase.Outcome, text []byte) []string {
+	extra := []string{}
+	if o.Class == "ok" && o.File != nil {
+		pd, pi := dbccase.Project(doc), dbccase.Project(o.File)
+		eq := 1
+		for _, s := range dbccase.Sections {
+			if pd[s] != pi[s] {
+				eq = 0
+			}
+		}
+		extra = append(extra, fmt.Sprintf("GENPROJEQ %d", eq))
+	}
+	if len(text) <= 2500 {
+		seen := map[uint64]bool{}
+		for _, x := range dbccase.Floats(doc) {
+			b := math.Float64bits(x)
+			if !seen[b] {
+				seen[b] = true
+				extra = append(extra, fmt.Sprintf("GENFMT %d %s", b, dbccase.CpsLine([]byte(strconv.FormatFloat(x, 'f', -1, 64)))))
+			}
+		}
+		extra = append(extra, "GENAST "+dbccase.CoqFile(doc))
+	}
+	return extra
 }
 
 // checkText: property part 2 on one text (any text; only accepted ones are subject to it).
@@ -178,7 +211,11 @@ func (st *state) exactDiff(a, b *dbc.File, stream string, hex bool, text string,
 }
 
 func (st *state) emit(stream string, hex bool, text []byte, o dbccase.Outcome) {
-	dbccase.EmitCase(st.w, st.nextID, stream, hex, text, o, nil)
+	st.emitExtra(stream, hex, text, o, nil)
+}
+
+func (st *state) emitExtra(stream string, hex bool, text []byte, o dbccase.Outcome, extra []string) {
+	dbccase.EmitCase(st.w, st.nextID, stream, hex, text, o, extra)
 	if len(st.samples) < 4 && st.nextID%97 == 3 {
 		s := string(text)
 		if len(s) > 300 {
